@@ -86,6 +86,8 @@ MUTANTS = {
         ("split-skip-failed", O, "            res_tmp = op.optimize(*args, **kwargs)\n",
          "            res_tmp = op.optimize(*args, **kwargs)\n            if isinstance(res_tmp, str):\n                res.x = np.hstack((res.x, np.zeros(len(op.c))))\n                continue\n"),
         ("robust-sign", O, "                    results.value = -sum(x.value * self.c)", "                    results.value = sum(x.value * self.c)"),
+        ("tiny-values-zeroed-after-solve", O, "                results = Results(value       = prob.value,\n                                  x           = x.value,",
+         "                results = Results(value       = prob.value,\n                                  x           = np.where(np.abs(x.value) < 0.05, 0., x.value),"),
         ("eao-sets-iteration-limit", O, "                prob.solve(solver = getattr(CVX, solver))",
          "                prob.solve(solver = getattr(CVX, solver), **({'scipy_options': {'maxiter': 3}} if solver == 'SCIPY' else {}))"),
         ("upper-bound-dropped", O, "            constraints = [ x <= self.u, x>=self.l ]", "            constraints = [ x <= self.u + 1e-3*(np.abs(self.u)+1), x>=self.l ]"),
